@@ -22,6 +22,7 @@ def obligations(tier):
         for kind in (2, 3):
             obls.append(api_step(2, it, ot, kind, 2))
     obls += dft_set(tier)      # the DFT stage: block bookkeeping and phase carry of the real dft_stage_fn
+    obls += dft_bigfifo_set()      # ... with a very full input FIFO (extreme up-sampling ratios)
     obls += planenv.obls(tier)      # ENV-(b): plans of the real _soxr_init inside the envelope the kernel obligations assume (enumeration, labelled)
     obls += fifo_obls()      # fifo.h: reserve / compaction / growth / read / trim
     return obls
